@@ -189,16 +189,3 @@ def child_history(exists: bool, status_idx: int, replay_children: bool, has_deta
         h.check(ev[0][0] == "update" and ev[0][1] is A.START and ev.index(("ufn",)) > 0,
                 "a context's START must be handed over before its body (and so before any descendant's first update)")
     h.end()
-
-
-# the composed world's backend validates EVERY update of multi-invocation executions against the same automaton (incl. token chain, parent START first,
-# execution-level record once and last): lemmas shared with C02 / C16
-from harness import C02 as _C02  # noqa: E402
-from harness import C16 as _C16  # noqa: E402
-
-composed_stream_steps_wait_child = _C02.t_steps_wait_child_page1
-composed_stream_steps_wait_child.__module__ = __name__
-composed_stream_failures = _C02.t_failures_caught_page1
-composed_stream_failures.__module__ = __name__
-composed_stream_execution_record = _C16.final_result_limit
-composed_stream_execution_record.__module__ = __name__
